@@ -789,3 +789,31 @@ def innermost_loop(fn, b):
 
 def loop_depth(fn, b):
     return sum(1 for h, body in natural_loops(fn) if b in body)
+
+
+
+def early_loop_exits(fn, head_call_pattern=r'Iterator>::next$', allow=None):
+    """For every natural loop whose body calls an iterator `next`: the exit edges other than the None edge of that call.
+    Returns list of (loop head, (from, to)).  `allow(fn, edge)` may whitelist an exit (e.g. one that follows an error)."""
+    out = []
+    for h, body in natural_loops(fn):
+        nexts = [(b, fn.blocks[b]['term']) for b in body if fn.blocks[b]['term']['t'] == 'call' and re.search(head_call_pattern, fn.callee_name(fn.blocks[b]['term']))]
+        # the driving call is the one closest to the head
+        nexts = [(b, t) for b, t in nexts if innermost_loop(fn, b) and innermost_loop(fn, b)[0] == h]
+        if not nexts:
+            continue
+        none_edges = set()
+        for b, t in nexts:
+            none_edges.update(variant_edges(fn, t['dest']['local'], 0))
+        for x in body:
+            for y in fn.succ(x):
+                if y not in body and (x, y) not in none_edges:
+                    if fn.blocks[y]['term']['t'] == 'unreachable' and not fn.blocks[y]['stmts']:
+                        continue
+                    # edges out of a block that only continues the None path (drop elaboration) are fine if reached only via none edges
+                    if any(fn.edge_dominates(e, x) for e in none_edges):
+                        continue
+                    if allow is not None and allow(fn, (x, y)):
+                        continue
+                    out.append((h, (x, y)))
+    return out
